@@ -28,6 +28,9 @@ func (c *callCtx) resolveRW(v *SV, method string, depth int) (ref string, isBuff
 			if p.Elem().String() == "bytes.Buffer" {
 				return v.C[0], true, true
 			}
+			if p.Elem().String() == "bytes.Reader" {
+				return v.C[0], false, true
+			}
 			if stt, isStruct := p.Elem().Underlying().(*types.Struct); isStruct {
 				off := 0
 				for i := 0; i < stt.NumFields(); i++ {
